@@ -57,7 +57,8 @@ func generateIntegrationDiagramHelper(m *sysl.Module, appName string,
 			return "", err
 		}
 	}
-	endPoints := m.Apps[appName].Endpoints
+	// a call may name an application that the model does not define: it has no endpoints to follow
+	endPoints := m.GetApps()[appName].GetEndpoints()
 	// For every endpoint, the statements are retrieved and we pass it to the printer to print appropriate mermaid code
 	for _, epName := range utils.OrderedKeys(endPoints) {
 		statements := endPoints[epName].Stmt
